@@ -31,13 +31,13 @@ CONFIGS = {'FCC': ('FCC', 0), 'HCP': ('HCP', 0), 'SQUARE': ('SQUARE', 0), 'ROMEG
 
 
 def BOUNDS(tier):
-    return {'crystals': ['FCC', 'SQUARE'] if tier == 'quick' else list(CONFIGS), 'depth': 4 if tier == 'quick' else 5, 'ops': OPS,
+    return {'crystals': ['FCC', 'SQUARE'] if tier == 'quick' else list(CONFIGS), 'depth': 3 if tier == 'quick' else 5, 'ops': OPS,
             'inputs': 'a = base G1, b = G1 with one solute-vacancy class shifted by +ln3 (same vacancy data), c = base G2', 'NGFmax': [4, 6]}
 
 
 def cases(tier):
     names = ['FCC', 'SQUARE'] if tier == 'quick' else list(CONFIGS)
-    depth = 4 if tier == 'quick' else 5
+    depth = 3 if tier == 'quick' else 5
     # the BFS of one crystal is split by its first operation to use the pool
     return [{'key': '{}/first={}'.format(n, op), 'config': n, 'first': op, 'depth': depth, 'cost': 3 if op.startswith('regen') else 1} for n in names for op in OPS]
 
